@@ -484,6 +484,38 @@ def mapPipeline {κ} (t0 : RawTree) (cfg : Config) (vote : Oracle κ)
           | .error e => .error e
           | .ok ordered => backfill tMeta ordered
 
+/-! ### the same data flow for ANY row chunks
+
+How `run_type_assignment_on_h5ad_cpu` cuts the rows into chunks (the clamp
+`effChunk`, evening the chunks out, …) is a tuning matter the properties do not
+constrain: what they need is that the borders tile the rows.  `mapPipelineChunks`
+takes the borders as a parameter (the correspondence feeds it the borders the
+workers were really handed, from the hook trace). -/
+
+/-- the borders `(r0, r1)` tile the rows `a … n`: consecutive, non-empty, ending at `n` -/
+def tilesFrom (n : Nat) : Nat → List (Nat × Nat) → Bool
+  | a, [] => a == n
+  | a, (r0, r1) :: rest =>
+    r0 == a && decide (r0 < r1) && decide (r1 ≤ n) && tilesFrom n r1 rest
+
+def tilesB (n : Nat) (borders : List (Nat × Nat)) : Bool := tilesFrom n 0 borders
+
+/-- `mapPipeline` with the chunk borders given -/
+def mapPipelineChunks {κ} (t0 : RawTree) (cfg : Config) (vote : Oracle κ)
+    (ids : List CellId) (cells : List κ) (borders : List (Nat × Nat)) (order : List Nat) :
+    Except Err (List Record) :=
+  let tMeta := t0.dropCells
+  match runTree t0 cfg with
+  | .error e => .error e
+  | .ok t =>
+    match runChunks t vote ids cells borders with
+    | .error e => .error e
+    | .ok parts =>
+      let blob := (gather parts order).map (markDirect t.hierarchy)
+      match reorderBlob ids blob with
+      | .error e => .error e
+      | .ok ordered => backfill tMeta ordered
+
 /-! ### the marker table through the `drop_level` / `flatten` blocks of `_run_mapping`
 
 The marker table (`Markers.Lookup`, group E's model of the serialized lookup
